@@ -132,10 +132,11 @@ static void do_api(op_t op) {
         if (rc) vfail("LP.quit", "LP.quit", "m_ctx_quit returned %d while looping", rc);
         CX.quit = 1; CX.quit_code = QCODE[op.a]; break; }
     case O_SET_TICK: {
-        rc = m_ctx_set_tick(op.a ? 4000000ull : 0);
+        static const uint64_t TICKNS[] = { 0, 4000000ull, 12000000ull };      /* off, 4 ms, 12 ms */
+        rc = m_ctx_set_tick(TICKNS[op.a % 3]);
         if (!CX.exists || ctx_hidden()) { if (rc >= 0) vfail("ST.refuse", "ST.refuse|tick", "m_ctx_set_tick returned %d without an accessible context", rc); break; }
         if (rc) vfail("CX.tick", "CX.tick", "m_ctx_set_tick returned %d", rc);
-        CX.tick = op.a; mt_del(-1, -3); if (op.a) mt_set(-1, -3, 4000000ull, 0, CX.looping);
+        CX.tick = op.a % 3; mt_del(-1, -3); if (CX.tick) mt_set(-1, -3, TICKNS[CX.tick], 0, CX.looping);
         break; }
     case O_CTXCALL: {      /* every context call (C15: denied while a callback of a DENY_CTX module executes; C07: fails without context) */
         int denied = !CX.exists || ctx_hidden();
@@ -147,6 +148,10 @@ static void do_api(op_t op) {
         case 2: { m_ctx_stats_t st; rc = m_ctx_stats(&st); if (!denied && !CX.looping) rc = 0; } break;
         case 3: rc = m_ctx_dump(); break;
         case 4: { int fd = m_ctx_fd(); rc = fd < 0 ? fd : 0; if (fd >= 0) { __real_close(fd); shim_user_fd_forget(fd); } } break;
+        case 5: rc = m_ctx_register("ctx", 0, NULL);      /* a thread has at most one context - also while a DENY_CTX callback hides it */
+            if (CX.exists && rc >= 0) vfail("CX.one", "CX.one|nested", "m_ctx_register returned %d although the thread already has a context%s", rc, ctx_hidden() ? " (hidden from the executing DENY_CTX callback)" : "");
+            if (!CX.exists && rc == 0) { CX.exists = 1; CX.persist = 0; CX.var = 0; CX.looping = CX.quit = CX.finalized = CX.tick = 0; CX.ever = 1; }
+            rc = 0; break;
         default: rc = 0;
         }
         if (denied && op.a <= 4 && rc >= 0) vfail("PM.ctx", CX.exists ? "PM.ctx|allowed" : "CX.none|allowed", "context call #%d succeeded (%d) although %s", op.a, rc, CX.exists ? "the executing callback belongs to a DENY_CTX module" : "the thread has no context");
@@ -189,13 +194,13 @@ static void do_api(op_t op) {
         } else {
             in_pass = 1; CX.pass_changed = 0;
             for (int i = 0; i < NM; i++) eval_ok[i] = 0;
-            int inj = shim_inject_epoll_errno;
+            int inj = shim_inject_epoll_errno; long cb_before = cb_total;
             rc = m_ctx_dispatch(); in_pass = 0;
             mon_flush();
             if (tick_owed) { tick_owed = 0; post_push(POST_TICK, -1, 1); mon_flush(); }   /* ticks: an upper bound on frequency only, hence optional */
             if (inj == EBADF) { if (rc < 0) { CX.quit = 1; CX.quit_code = EBADF; } }
             else if (rc < 0 && ON(R_LP)) vfail("LP.ret", "LP.ret|error", "m_ctx_dispatch returned %d although polling did not fail", rc);
-            if (rc > 0) check_pass("a batch of events was processed");
+            if (rc > 0 || cb_total != cb_before) check_pass("a batch of events was processed");      /* also a batch whose only event was a poison pill (it ran on_stop) */
             last_dispatch_rc = rc; obs(rc > 0 ? rc : 0);
             for (int i = 0; i < NM; i++) { mod_t *m = &MD[i]; if (!m->batch_due) continue;
                 if (m->present && m->st == S_RUNNING && m->batch_tmo && ON(R_BA)) for (int k = 0; k < m->nmb; k++) if (!m->mb[k].optional && m->mb[k].kind == 0 && m->mb[k].msg < m->batch_due)
@@ -266,10 +271,19 @@ static void do_api(op_t op) {
         if (!legal) { rc = k == 0 ? m_mod_start(h) : k == 1 ? m_mod_pause(h) : k == 2 ? m_mod_resume(h) : m_mod_stop(h);
             char sg[64]; snprintf(sg, sizeof sg, "ST.refuse|%s-in-%s", nm[k] + 6, SN[st]); REFUSED(rc, what, sg); break; }
         int gen = MD[s].reg_gen;
+        /* a module with a token bucket: the call may be refused at its entry (EAGAIN, no effect) - keep what the monitor is about to change */
+        static struct { mod_t md[NM]; mtimer_t mt[24]; int es[NM], er[NM], eo[NM], os[NM], np; msg_t msg[MAXMSG]; int ufd[NUFD]; } SV; int saved = 0;
+        if (MD[s].tb_rate > 0) { saved = 1; memcpy(SV.md, MD, sizeof MD); memcpy(SV.mt, MT, sizeof MT); memcpy(SV.es, exp_start, sizeof exp_start); memcpy(SV.er, exp_stop_run, sizeof exp_stop_run);
+            memcpy(SV.eo, exp_stop_other, sizeof exp_stop_other); memcpy(SV.os, opt_stop, sizeof opt_stop); SV.np = npost; memcpy(SV.msg, MSG, sizeof(msg_t) * nmsg); for (int u = 0; u < NUFD; u++) SV.ufd[u] = UFD[u].open_rd; }
         if (k == 0) { MD[s].st = S_RUNNING; exp_start[s]++; mt_arm_all(s, 1); rc = m_mod_start(h); }
         else if (k == 1) { MD[s].st = S_PAUSED; MD[s].batch_due = 0; if (flush_phase) discard_pending(s); mt_arm_all(s, 0); rc = m_mod_pause(h); mon_flush(); post_push(POST_STOPPED, s, 0); }
         else if (k == 2) { MD[s].st = S_RUNNING; mt_arm_all(s, 1); rc = m_mod_resume(h); mon_flush(); post_push(POST_STARTED, s, 0); }
         else { if (st == S_RUNNING) exp_stop_run[s]++; else exp_stop_other[s]++; mon_stop_effects(s); mt_del_all(s); rc = m_mod_stop(h); }
+        if (rc == -EAGAIN && saved) {      /* refused by the bucket: nothing happened */
+            memcpy(MD, SV.md, sizeof MD); memcpy(MT, SV.mt, sizeof MT); memcpy(exp_start, SV.es, sizeof exp_start); memcpy(exp_stop_run, SV.er, sizeof exp_stop_run);
+            memcpy(exp_stop_other, SV.eo, sizeof exp_stop_other); memcpy(opt_stop, SV.os, sizeof opt_stop); npost = SV.np; memcpy(MSG, SV.msg, sizeof(msg_t) * nmsg); for (int u = 0; u < NUFD; u++) UFD[u].open_rd = SV.ufd[u];
+            tb_account(s, rc, &sn, what); break; }
+        if (saved && rc >= 0) tb_account(s, rc, &sn, what);
         if (rc && MD[s].reg_gen == gen && MD[s].present) vfail("ST.accept", "ST.accept|state-call", "%s returned %d", what, rc);
         if (k == 0 && MD[s].present && MD[s].st == S_STOPPED) mt_del_all(s);
         break; }
